@@ -301,6 +301,22 @@ structure SField where
   kind : Kind
 deriving Repr, DecidableEq, Inhabited
 
+/-- what `DecodeRow` looks a struct field up by -/
+inductive Lookup where | tag | name
+deriving Repr, DecidableEq, Inhabited
+
+def Lookup.sel : Lookup → SField → Bytes
+  | .tag, sf => sf.tag
+  | .name, sf => sf.name
+
+/-- the attribute lookups of `DecodeRow` in a given order: the first one that names a column decides -/
+def matchFieldOrder (order : List Lookup) (keys : List Bytes) (sf : SField) : Option Nat :=
+  match order with
+  | [] => none
+  | w :: ws => match lastIdx keys (lower (w.sel sf)) with
+    | some j => some j
+    | none => matchFieldOrder ws keys sf
+
 /-- `DecodeRow`: tag first, then field name, both lower-cased -/
 def matchField (keys : List Bytes) (sf : SField) : Option Nat :=
   match lastIdx keys (lower sf.tag) with
@@ -329,6 +345,22 @@ structure EncS where
   geomKind : GK
 deriving Repr, Inhabited
 
+/-- `const intLength / floatLength / floatPrecision / stringLength` of shp.go (tied to the source by the
+regenerated `Gen.lean`) -/
+abbrev intLength : Nat := 10
+abbrev floatLength : Nat := 30
+abbrev floatPrecision : Nat := 10
+abbrev stringLength : Nat := 50
+
+/-- the column `NewEncoder` creates for an int / float64 / string struct field:
+`shp.NumberField(name, intLength)`, `shp.FloatField(name, floatLength, floatPrecision)`,
+`shp.StringField(name, stringLength)` (field types 'N', 'F', 'C') -/
+def colField (sf : SField) : Field :=
+  match sf.kind with
+  | .int => ⟨colName sf, 78, intLength, 0⟩
+  | .float => ⟨colName sf, 70, floatLength, floatPrecision⟩
+  | _ => ⟨colName sf, 67, stringLength, 0⟩
+
 def shapeTypeOfGK : GK → Option Nat
   | .P => some 1 | .LS => some 3 | .MLS => some 3 | .PG => some 5 | .B => some 5 | .MP => some 8 | .I => none
 
@@ -339,9 +371,9 @@ def newEncoder (sfs : List SField) : Except Fault EncS :=
     | [], fs, g => .ok (fs.reverse, g)
     | sf :: rest, fs, g =>
       match sf.kind with
-      | .int => go rest (⟨colName sf, 78, 10, 0⟩ :: fs) g
-      | .float => go rest (⟨colName sf, 70, 30, 10⟩ :: fs) g
-      | .str => go rest (⟨colName sf, 67, 50, 0⟩ :: fs) g
+      | .int => go rest (colField sf :: fs) g
+      | .float => go rest (colField sf :: fs) g
+      | .str => go rest (colField sf :: fs) g
       | .geom .I => .error .invalidType
       | .geom k => go rest fs (some k)
   match go sfs [] none with
